@@ -35,6 +35,10 @@
 #include "pass2_format.h"
 
 #define P2_BS 1024u
+/* e2fsck_pass2 allocates the directory scan buffer as 2 * blocksize (pass2.c, "directory scan buffer"); the block
+ * under check is its first half.  (struct ext2_dir_entry declares name[255]; an entry near the end of the block is
+ * accessed through that type, which stays inside the real allocation.) */
+#define P2_ALLOC (2u * P2_BS)
 #define P2_LOGMAX 8u
 #define P2_NCHOICE 8u
 
@@ -43,7 +47,7 @@ struct in_p2 {
 	unsigned int off;		/* byte offset of the entry under check */
 	unsigned int ino;		/* the directory's inode number */
 	unsigned int incompat;		/* s_feature_incompat */
-	unsigned int k;			/* ghost byte index into the block ("for every byte") */
+	unsigned int k;			/* ghost byte index into the scan buffer ("for every byte") */
 	unsigned char mode;		/* fix_problem answers: P2_NO / P2_YES / P2_CHOICE */
 	unsigned char choice[P2_NCHOICE];
 	/* check_filetype: what pass 1 knows about the inode the entry names */
